@@ -84,19 +84,11 @@ static int step(int e)
     sdo_request(EVSRV[e], EV[e]);
     (void)CONodeGetErr(&Node);
     sdo_content_reset();
-    if (getenv("C04_DBG") && mc_expand_id >= 0) { CO_SDO *q = &Node.Sdo[0]; uint64_t h[2]; w_hash(h);
-        fprintf(stderr, "DBG m=%d,%d,%u,%u,%d,%d,%d obj=%d idx=%x.%x ab=%x buf=%u,%ld seg=%u,%u,%d,%d,%d blk=%d,%u,%u,%d,%d,%d,%d err=%d off=%u,%u,%u,%u,%u,%u h=%llx\n",
-          SM[0].st, SM[0].obj, SM[0].got, SM[0].off, SM[0].next, SM[0].sent, SM[0].blksize, q->Obj ? 1 : 0, q->Idx, q->Sub, q->Abort, q->Buf.Num, (long)(q->Buf.Cur - q->Buf.Start),
-          q->Seg.Size, q->Seg.Num, q->Seg.TBit, q->Seg.Dir, q->Seg.SInd, q->Blk.State, q->Blk.Size, q->Blk.Len, q->Blk.SegNum, q->Blk.SegCnt, q->Blk.SegOk, q->Blk.LastValid, Node.Error,
-          DomO3.Offset, DomOA.Offset, DomOB.Offset, StrO3.Offset, StrO5.Offset, StrO12.Offset, (unsigned long long)h[0]); }
-#ifdef C05_PROBE
-    if (mc_expand_id >= 0 || mc_verbose) probe_state();
-#endif
     return MC_OK;
 }
 
 #ifdef C05_PROBE
-static const mc_harness H = { "C05", "c05", 2, cfg_name, build, ev_name, step, CO_SDO_BUF_SEG + 2, 5 };
+static const mc_harness H = { "C05", "c05", 2, cfg_name, build, ev_name, step, CO_SDO_BUF_SEG + 2, 5, probe_state };
 #else
 static const mc_harness H = { "C04", "c04", 2, cfg_name, build, ev_name, step, CO_SDO_BUF_SEG + 2, 5 };
 #endif
